@@ -535,7 +535,7 @@ def consume(M, fn, it, a, c):
         return r
     raise Unsupported("iterator consumer " + fn)
 
-@model_re(r'^<Vec<.*> as Extend<.*>>::extend$|^Vec::extend_from_slice$|^<String as Extend<.*>>::extend$')
+@model_re(r'^<(Vec|VecDeque)<.*> as Extend<.*>>::extend$|^Vec::extend_from_slice$|^<String as Extend<.*>>::extend$')
 def _(M, a, c):
     v = V(a[0])
     if v.kind == 'String':
@@ -544,7 +544,8 @@ def _(M, a, c):
         return UNIT
     clone = 'extend_from_slice' in c
     for x in drain(_it(M, a[1])):
-        v.d['b'].append(generic_clone(M, deref_all(x)) if (clone or isinstance(x, Ref) and 'Extend<&' in c) else x)
+        elem_is_ref = re.match(r'^<(?:Vec|VecDeque)<&', norm_name(c)) is not None       # a container of references keeps the references
+        v.d['b'].append(generic_clone(M, deref_all(x)) if (clone or isinstance(x, Ref) and 'Extend<&' in c and not elem_is_ref) else x)
     return UNIT
 @model_re(r'^<(BTreeMap|HashMap|HashSet|BTreeSet)<.*> as Extend<.*>>::extend$')
 def _(M, a, c):
